@@ -122,10 +122,15 @@ package cache
 //@ spec knownInfo(fs *ReadOnlyFS, name string) := fs.cacheInfo[name]
 //@ spec infoDir(w int, info hackpadfs.FileInfo) := retW("hackpadfs.(FileInfo).IsDir", 0, w, info)
 
+//@ spec pathLocked(fs *ReadOnlyFS, name string) := gbool("pathheld", uf("plkey", fs.pathlock, name))
 //@ func (fs *ReadOnlyFS) Open(name string) (f hackpadfs.File, err error)
 //@   props C10 C11 C16 C17 C14 C04 C05
 //@   requires roOK(fs)
-//@   modifies world(), mapOf(fs.cacheInfo), mapOf(fs.cached)
+//@   requires "path-not-locked-by-caller" !pathLocked(fs, name)
+//@   modifies world(), mapOf(fs.cacheInfo), mapOf(fs.cached), gbool("pathheld", uf("plkey", fs.pathlock, name))
+//@   callsite copyFile requires "copy-under-the-path-lock" [C11] pathLocked(fs, name)
+//@   callsite Store requires "marked-under-the-path-lock" [C11] pathLocked(fs, name)
+//@   ensures "path-lock-released" [C11] !pathLocked(fs, name)
 //@   ensures "stat-error" implies(!old(known(fs, name)) && old(srcOpenErr(world(), fs, name)) != nil, f == nil && err == old(srcOpenErr(world(), fs, name)) && completeSame(fs))
 //@   ensures "directory" [C16 C17] implies(old(known(fs, name)) && old(infoDir(world(), knownInfo(fs, name))), err == nil && isType(f, *dir) && f.(*dir) != nil && fresh(f.(*dir)) &&
 //@                     f.(*dir).fs == fs && f.(*dir).name == name && f.(*dir).offset == 0 && !f.(*dir).closed && world() == old(world()) && completeSame(fs))
